@@ -1466,10 +1466,14 @@ func runC09(o *Out, rng *RNG, tier string, replay string) {
 	o.CaseType = "case"
 	o.CheckFn = "check"
 	o.ShardSize = 120
-	o.Rule = "(i) forced schedules through the verif yield points (the explicit F28 schedules for Remove/RemoveAll x 6 creators x 4 park orders, then random 2-3 thread programs with random park points), each compared with the Coq model run on the same schedule (results + final tree) and checked for serialisability; (ii) stress runs of 2-32 goroutines x 4-23 ops on 2 shared directories, 3 shared files and a private never-removed area, tagged values of 64-512 bytes, GOMAXPROCS 1/2/4/16, seeded yields in the hook callback: no panic, no hang (10 s), every read is a whole written value, listings have distinct names, the final walk succeeds and every file holds a whole value, every successful private-path creation is present with its value; (iv) targeted stress of the Writer creation window (288e3e2): rounds of Writer(new file) against 3 goroutines polling ReadFile/Reader of that path, GOMAXPROCS 1/2/4/16 - the first content seen must be the whole value, an empty content is an oracle failure; (v) copies against open stream sessions: one goroutine keeps Writer sessions on a shared file open (Write part 1; yield/sleep; Write part 2; Close) while 3 goroutines Copy/CopyFile it and CopyDirectory its parent to fresh destinations and read the copies back - every copy must be a whole value, never a prefix; (iii) small histories (2-3 threads x 1-2 ops, no handles) whose final tree must be explained by a sequential order of the successful operations respecting real-time precedence (Go plain tree + Coq acceptor). Non-trivial: at least one (forced) / two (small) successful mutations; distinct by programs+schedule / programs+results. Added by the coverage audit (c09_audit.go): (vi) session mixes - Writer sessions that yield between chunks and Reader sessions that yield between chunk reads against WriteFile/ReadFile/Copy*/Remove+re-create of shared, single-writer and volatile files, values with a 16-bit identity: every read is a whole value written to THAT file and not one that a write completed before the read began had replaced; (vii) commons - 2-16 goroutines x 10-39 calls (all 16 entry points incl. IsFile/IsDir/Lstat) on names of their own inside the same two shared directories: every result and every listing of the caller's own names as on a plain tree for that goroutine alone, final tree = union; (viii) creation storms - 2-5 goroutines released together on one new node (same kind / mixed kinds / Remove or RemoveAll of the parent among them): results AND final tree explained by a sequential order (a WriteFile/Writer refused by an overlapping successful Copy* is left open and counted), successful calls also sent to the Coq acceptor; (ix) listing storm - 4 goroutines remove/re-create their own 40 names in one directory of 160 and list it in between (own names exactly once, the removed one absent, no duplicates); (x) race loop, 18000 rounds with persistent workers released together: two of three rounds Remove of an empty directory against three creators inside it with a feedback-controlled start offset (every creator that returned nil is visible afterwards, whatever Remove answered), every third round four WriteFile/Writer calls on the same new file (all succeed, one node, one of their values)."
+	o.Rule = "(i) forced schedules through the verif yield points (the explicit F28 schedules for Remove/RemoveAll x 6 creators x 4 park orders, then random 2-3 thread programs with random park points), each compared with the Coq model run on the same schedule (results + final tree) and checked for serialisability; (ii) stress runs of 2-32 goroutines x 4-23 ops on 2 shared directories, 3 shared files and a private never-removed area, tagged values of 64-512 bytes, GOMAXPROCS 1/2/4/16, seeded yields in the hook callback: no panic, no hang (10 s), every read is a whole written value, listings have distinct names, the final walk succeeds and every file holds a whole value, every successful private-path creation is present with its value; (iv) targeted stress of the Writer creation window (288e3e2): rounds of Writer(new file) against 3 goroutines polling ReadFile/Reader of that path, GOMAXPROCS 1/2/4/16 - the first content seen must be the whole value, an empty content is an oracle failure; (v) copies against open stream sessions: one goroutine keeps Writer sessions on a shared file open (Write part 1; yield/sleep; Write part 2; Close) while 3 goroutines Copy/CopyFile it and CopyDirectory its parent to fresh destinations and read the copies back - every copy must be a whole value, never a prefix; (iii) small histories (2-3 threads x 1-2 ops, no handles) whose final tree must be explained by a sequential order of the successful operations respecting real-time precedence (Go plain tree + Coq acceptor). Non-trivial: at least one (forced) / two (small) successful mutations; distinct by programs+schedule / programs+results. Added by the coverage audit (c09_audit.go): (vi) session mixes - Writer sessions that yield between chunks and Reader sessions that yield between chunk reads against WriteFile/ReadFile/Copy*/Remove+re-create of shared, single-writer and volatile files, values with a 16-bit identity: every read is a whole value written to THAT file and not one that a write completed before the read began had replaced; (vii) commons - 2-16 goroutines x 10-39 calls (all 16 entry points incl. IsFile/IsDir/Lstat) on names of their own inside the same two shared directories: every result and every listing of the caller's own names as on a plain tree for that goroutine alone, final tree = union; (viii) creation storms - 2-5 goroutines released together on one new node (same kind / mixed kinds / Remove or RemoveAll of the parent among them): results AND final tree explained by a sequential order (a WriteFile/Writer refused by an overlapping successful Copy* is left open and counted), successful calls also sent to the Coq acceptor; (ix) listing storm - 4 goroutines remove/re-create their own 40 names in one directory of 160 and list it in between (own names exactly once, the removed one absent, no duplicates); (x) race loop, 18000 rounds with persistent workers released together: two of three rounds Remove of an empty directory against three creators inside it with a feedback-controlled start offset (every creator that returned nil is visible afterwards, whatever Remove answered), every third round four WriteFile/Writer calls on the same new file (all succeed, one node, one of their values). Added after the fifth round of seeded changes (c09_big.go): (xi) the SIZE of the values - 60 runs of 4-8 goroutines x 24-47 calls on files that exist all the time, overwritten by WriteFile and Writer sessions (1-3 chunks) with values of 24 bytes to 2 MiB (many of the same length with different bytes at every position, shorter ones that fit the buffer of the longer ones, longer ones again) while ReadFile, Reader sessions (5 chunk sizes) and Copy/CopyFile/CopyDirectory to fresh destinations run; two thirds of the calls of a run are of one reading x one writing entry point (all 10 pairs), GOMAXPROCS 4/16/2/8/1, units 1 MiB/512 KiB/256 KiB; every value carries the number of the writing call at head and tail and a body whose every byte names its pool value: no panic, no error, every value read / found in a copy / left in the file is ONE complete value written by a successful call to that file and not one that a later complete write had replaced before the call began; buffers passed in or handed out are scribbled over after the call."
 	nForced, nSmall, nLarge, nWindow, nSess := 300, 400, 40, 1500, 400
 	if tier == "thorough" {
 		nForced, nSmall, nLarge, nWindow, nSess = 1500, 10000, 1000, 20000, 4000
+	}
+	if os.Getenv("VERIF_C09_ONLY") == "big" { // debugging aid: only the family of c09_big.go
+		c9BigFamily(o, rng.Fork(), tier)
+		return
 	}
 	if os.Getenv("VERIF_C09_ONLY") == "audit" { // debugging aid: only the families of c09_audit.go
 		c9AuditFamilies(o, rng.Fork(), tier)
@@ -1499,6 +1503,9 @@ func runC09(o *Out, rng *RNG, tier string, replay string) {
 		c9RunStress(o, rng.Fork(), i, procs[i%4])
 	}
 	c9AuditFamilies(o, rng.Fork(), tier)
+	if os.Getenv("VERIF_C09_ONLY") != "nobig" { // debugging aid: the check as it was before c09_big.go
+		c9BigFamily(o, rng.Fork(), tier)
+	}
 	keys := make([]string, 0)
 	for k := range o.Stats {
 		keys = append(keys, k)
